@@ -25,12 +25,17 @@ def is_prefile(rel):
     return re.fullmatch(r'f\d+/sub/file\d+\.val', rel) is not None
 
 
+class _PoolKey:
+    def __init__(self, ki, pykey, dbk, raw):
+        self.ki, self.pykey, self.dbk, self.raw = ki, pykey, dbk, raw
+
+
 class Scn:
     """one symbolic cache state + configuration on world `w`"""
 
     def __init__(self, w, n, policy='least-recently-stored', kinds=KINDS, statistics=False, sym_cfg=True,
                  min_file_size=2 ** 15, alive_sym=True, key_lo=None, key_hi=None, rows=None, cull_limit=None,
-                 expire_pos=True, tags=True, settings=None):
+                 expire_pos=True, tags=True, settings=None, keypool=None):
         self.w = w
         self.n = n
         self.policy = policy
@@ -58,7 +63,15 @@ class Scn:
             if prev_rowid is not None:
                 assume(rowid.z > prev_rowid.z)
             prev_rowid = rowid
-            key = self.v_int('r%d.key' % i, key_lo if key_lo is not None else -2 ** 63, key_hi if key_hi is not None else 2 ** 63 - 1)
+            if keypool is not None:
+                # keys of mixed types from a concrete pool (symbolic choice, realised by forks): text, bytes, numbers,
+                # pickled keys and bytes equal to another key's serialized form
+                ki = int(self.v_int('r%d.key_i' % i, 0, len(keypool) - 1))
+                pykey = keypool[ki]
+                dbk, rawflag = c._disk.put(pykey)
+                key = _PoolKey(ki, pykey, dbk, rawflag)
+            else:
+                key = self.v_int('r%d.key' % i, key_lo if key_lo is not None else -2 ** 63, key_hi if key_hi is not None else 2 ** 63 - 1)
             st_ = self.v_real('r%d.store_time' % i)
             at_ = self.v_real('r%d.access_time' % i)
             ac_ = self.v_int('r%d.access_count' % i, 0, 2 ** 40)
@@ -73,7 +86,7 @@ class Scn:
             else:
                 tn, tv, tag = None, None, None
             alive = self.v_bool('r%d.alive' % i) if alive_sym else True
-            spec = dict(rowid=rowid, key=key, raw=1, store_time=st_, access_time=at_, access_count=ac_,
+            spec = dict(rowid=rowid, key=(key.dbk if keypool is not None else key), raw=(int(key.raw) if keypool is not None else 1), store_time=st_, access_time=at_, access_count=ac_,
                         expire_time=Nullable(en, ev), tag=tag, _alive=alive, _tb=self.v_real('r%d.tb' % i))
             rv.update(rowid=rowid, key=key, store_time=st_, access_time=at_, access_count=ac_, expire_null=en,
                       expire_time=ev, tag_null=tn, tag=tv, alive=alive)
@@ -98,7 +111,11 @@ class Scn:
         # distinct keys among alive rows (unique index)
         for i in range(n):
             for j in range(i + 1, n):
-                assume(self.rowvars[i]['key'].z != self.rowvars[j]['key'].z)
+                if keypool is not None:
+                    if self.rowvars[i]['key'].ki == self.rowvars[j]['key'].ki:
+                        assume(False)
+                else:
+                    assume(self.rowvars[i]['key'].z != self.rowvars[j]['key'].z)
         w.install_rows(c, self.specs)
         self.T0 = w.snapshot(c)
 
